@@ -44,6 +44,9 @@ type Script struct {
 	//   "posfield" field positive, no header (a client-side request built from a sized reader)
 	CL    string `json:"cl"`
 	CLVal int    `json:"clVal,omitempty"` // the positive number declared by pos / posfield
+	// Method of the request ("" = POST): whether a request has a body is a matter of its length and its stream, not
+	// of its method (a GET may carry one).
+	Method string `json:"method,omitempty"`
 }
 
 // Op is one operation on the request: K is "has" (runtime.HasBody), "read" (Body.Read with a buffer of N
@@ -189,7 +192,7 @@ func (c Case) wellFormed() error {
 	}
 	for _, op := range c.Ops {
 		switch op.K {
-		case "has", "close":
+		case "has", "close", "copy":
 		case "read":
 			if op.N < 0 || op.N > 1<<20 {
 				return fmt.Errorf("read size out of range")
@@ -208,7 +211,11 @@ func Check(c Case) *kit.Violation {
 		return kit.Failf("malformed case: %v", err)
 	}
 	sc := c.Script
-	req, err := http.NewRequest(http.MethodPost, "http://verif.invalid/", nil)
+	method := sc.Method
+	if method == "" {
+		method = http.MethodPost
+	}
+	req, err := http.NewRequest(method, "http://verif.invalid/", nil)
 	if err != nil {
 		return kit.Failf("harness: %v", err)
 	}
@@ -350,6 +357,39 @@ func Check(c Case) *kit.Violation {
 			if v := read(i, op.N, "Read"); v != nil {
 				return v
 			}
+		case "copy":
+			// the rest of the body handed to io.Copy (what a byte-stream consumer does): it goes through io.WriterTo when
+			// the body offers it, so that entry point is held to the same rules as Read
+			if req.Body == nil {
+				continue
+			}
+			var sink copySink
+			var n int64
+			var cerr error
+			if v := kit.Guard("io.Copy from the body", func() { n, cerr = io.Copy(&sink, req.Body) }); v != nil {
+				return kit.Failf("%s (%s)", v.Msg, hist(i))
+			}
+			if closed {
+				if wrappedAtClose && !probedAfterClose && (n != 0 || cerr == nil) {
+					return kit.Failf("io.Copy from the closed body returned (%d, %v); reads after close must fail (%s)", n, cerr, hist(i))
+				}
+				continue
+			}
+			if pos+int(n) > len(data) || string(sink.b) != string(data[pos:pos+int(n)]) {
+				return kit.Failf("io.Copy delivered %d bytes that are not the next bytes of the stream (%d of %d were read before) (%s)", n, pos, len(data), hist(i))
+			}
+			pos += int(n)
+			if pos != len(data) {
+				return kit.Failf("io.Copy stopped after %d of %d bytes with error %v (%s)", pos, len(data), cerr, hist(i))
+			}
+			if term == io.EOF || (termSeen && sc.After != "") {
+				if cerr != nil {
+					return kit.Failf("io.Copy to the end of the stream returned %v, the stream ends with io.EOF (%s)", cerr, hist(i))
+				}
+			} else if cerr != term {
+				return kit.Failf("io.Copy returned %v, the stream ends with %v (%s)", cerr, term, hist(i))
+			}
+			termSeen = true
 		case "close":
 			if req.Body == nil {
 				continue
@@ -398,6 +438,11 @@ func Check(c Case) *kit.Violation {
 	return nil
 }
 
+// copySink is a destination that is nothing but an io.Writer.
+type copySink struct{ b []byte }
+
+func (s *copySink) Write(p []byte) (int, error) { s.b = append(s.b, p...); return len(p), nil }
+
 // Generators ------------------------------------------------------------------------------------------
 
 var lens = []int{0, 0, 1, 1, 2, 3, 5, 17, 511, 512, 4095, 4096, 4096, 4097, 8191, 8192, 8193, 9000, 12288}
@@ -408,6 +453,7 @@ func genScript(t *rapid.T) Script {
 	s := Script{}
 	s.Body = rapid.SampledFrom([]string{"script", "script", "script", "script", "script", "script", "script", "nil", "nobody"}).Draw(t, "body")
 	s.CL = rapid.SampledFrom([]string{"absent", "absent", "absent", "absent0", "absent0", "zero", "pos", "posfield"}).Draw(t, "cl")
+	s.Method = rapid.SampledFrom([]string{"", "", "", "GET", "get", "HEAD", "DELETE", "OPTIONS", "PUT"}).Draw(t, "method")
 	if s.Body == "script" {
 		if rapid.IntRange(0, 3).Draw(t, "anylen") == 0 {
 			s.Len = rapid.IntRange(0, 3*4096).Draw(t, "len")
@@ -456,9 +502,9 @@ func Gen(t *rapid.T) Case {
 	for i := 0; i < n; i++ {
 		var k string
 		if closed {
-			k = rapid.SampledFrom([]string{"read", "read", "read", "close", "has"}).Draw(t, "opC")
+			k = rapid.SampledFrom([]string{"read", "read", "read", "close", "has", "copy"}).Draw(t, "opC")
 		} else {
-			k = rapid.SampledFrom([]string{"has", "has", "has", "read", "read", "read", "read", "close"}).Draw(t, "op")
+			k = rapid.SampledFrom([]string{"has", "has", "has", "read", "read", "read", "read", "close", "copy"}).Draw(t, "op")
 		}
 		op := Op{K: k}
 		if k == "read" {
@@ -473,7 +519,7 @@ func Gen(t *rapid.T) Case {
 	if c.Script.Body == "script" && c.Script.Len > 0 && c.Script.Term == "err" && rapid.IntRange(0, 2).Draw(t, "nonsticky") == 0 {
 		ok, read := true, false
 		for _, op := range c.Ops {
-			if op.K == "read" || op.K == "close" {
+			if op.K == "read" || op.K == "close" || op.K == "copy" {
 				read = true
 			}
 			if op.K == "has" && read {
@@ -616,6 +662,11 @@ func Classify(c Case) (bool, []string) {
 			}
 			if op.N == 0 {
 				labels = append(labels, "Read(0)")
+			}
+		case "copy":
+			labels = append(labels, "io.Copy from the body")
+			if closed {
+				labels = append(labels, "io.Copy after Close")
 			}
 		case "close":
 			closed = true
